@@ -44,6 +44,12 @@ Definition classified : list (site * list order_class) :=
     (("driver/src/modules/loader/stdlib_loaded.rs", "load_loaded_std_module", "exports"), [SetBuild]);
     (("driver/src/modules/needs.rs", "load_modules_for_program", "exports"), [SetBuild]);
     (("driver/src/modules/needs.rs", "load_modules_with_loader", "exports"), [SetBuild]);
+    (* ModuleImports::include_auto_registered (7e2e5a8): HashSet fields extended by the VM's HashSets (set union), and
+       HashMap::entry(symbol).or_insert_with over the keys of a HashMap (distinct keys; an existing key wins whatever the order) *)
+    (("driver/src/modules/loader/types.rs", "include_auto_registered", "repl_known_globals()"), [SetBuild]);
+    (("driver/src/modules/loader/types.rs", "include_auto_registered", "repl_module_aliases()"), [SetBuild]);
+    (("driver/src/modules/loader/types.rs", "include_auto_registered", "repl_known_native_globals()"), [SetBuild]);
+    (("driver/src/modules/loader/types.rs", "include_auto_registered", "repl_symbol_origins()"), [KeyedMerge]);
     (("modules/src/native/loader.rs", "read_exports", "exports"), [NotHash]);
     (("opt/src/passes/inline/analyze.rs", "analyze", "call_counts"), [PerEntryUpdate]);
     (("opt/src/passes/inline/analyze.rs", "analyze", "functions"), [PerEntryUpdate]);
